@@ -243,7 +243,18 @@ func (x *Exec) step(s *State, in ssa.Instruction) (cont bool) {
 		p := x.val(s, t.Addr)
 		v := x.val(s, t.Val)
 		if v.LV != nil {
-			panic(unsupported("interior pointer stored to memory"))
+			// an interior pointer escapes into memory: stored as an opaque non-nil token
+			// (sound as long as it is not dereferenced after being loaded back)
+			x.note("interior pointer stored to memory as an opaque token")
+			name := "iptr_" + sanitize(typeKey(v.T))
+			x.declareFun(name, []string{sInt, sStr}, sInt)
+			base := v.LV.Base
+			if base == "" {
+				base = "0"
+			}
+			tok := app(name, base, strLit(v.LV.Path+v.LV.Global+v.LV.Idx))
+			s.assume(app("<", "0", tok))
+			v = Value{T: v.T, S: tok}
 		}
 		if v.Fn != nil && len(v.Fn.Bindings) > 0 {
 			x.note("closure stored to memory: identity only")
